@@ -98,6 +98,8 @@ var probeDocs = []string{
 	` <title>t</title><noscript>n</noscript><frame src=x>after frame<textarea>ta</textarea> `,
 	// an element reached through two overlapping patterns, then elements reached through only one of them
 	`<custom-y title="t" class="c">1</custom-y><custom-x class="c" title="t">2</custom-x><b-y title="t" class="c">3</b-y><custom-y class="c">4</custom-y><custom-x class="c">5</custom-x>`,
+	// several style properties at once; content of elements that may or may not be in the skip set
+	`<custom-x style="color: red; text-align: center; width: 10px">s</custom-x><span style="text-align: center; width: 1px">t</span><blink>in blink</blink><svg>in svg</svg><style>in style</style>tail`,
 }
 
 // completion: calls applied on top of a history so that rules which need an allowed element or attribute to show become observable
@@ -530,15 +532,28 @@ func cmdPolicyFuzz(args []string) int {
 		tw = NewTraceWriter(tf)
 	}
 	distinct := map[string]bool{}
-	for k := 0; k < *n; k++ {
+	// a few fixed rule sets first: calls that name several things at once, one of them already known to the policy
+	fixedBases := []Recipe{
+		{{M: "NewPolicy"}, {M: "AllowElements", Names: []string{"b"}}, {M: "SkipElementsContent", Names: []string{"style", "svg", "blink"}}},
+		{{M: "NewPolicy"}, {M: "AllowElementsMatching", Pat: "^custom-"}, {M: "AllowStyles", Props: []string{"color", "text-align", "width"}, Scope: "pat", Pat: "^custom-"}},
+		{{M: "UGCPolicy"}, {M: "AllowElementsContent", Names: []string{"script", "title", "object"}}, {M: "AllowAttrs", Attrs: []string{"title", "class", "id"}, Scope: "els", Els: []string{"span", "p", "b"}}},
+		{{M: "NewPolicy"}, {M: "AllowElements", Names: []string{"a", "p"}}, {M: "AllowAttrs", Attrs: []string{"href"}, Scope: "els", Els: []string{"a"}}, {M: "AllowURLSchemes", Schemes: []string{"http", "mailto", "tel"}}},
+	}
+	for k := 0; k < *n+len(fixedBases); k++ {
 		base := GenRecipe(rng, GenOpts{})
 		other := GenRecipe(rng, GenOpts{})
+		if k < len(fixedBases) {
+			base = fixedBases[k]
+			for i := range base {
+				base[i].norm()
+			}
+		}
 		baseModel := BuildAP(base)
 		basePol := BuildReal(base)
 		baseProbe := probe(basePol)
 		distinct[string(JSON(baseModel))] = true
 		// variants with the same rule set
-		for v := 0; v < 4; v++ {
+		for v := 0; v < 5; v++ {
 			variant := append(Recipe{}, base...)
 			what := ""
 			switch v {
@@ -572,6 +587,42 @@ func cmdPolicyFuzz(args []string) int {
 				variant = ext
 			case 3:
 				what = "interleaved with the construction of another policy"
+			case 4: // every call that names several things becomes one call per name, last name first
+				what = "multi-name calls split into single-name calls in reverse order"
+				ext := Recipe{variant[0]}
+				for _, c := range variant[1:] {
+					var list *[]string
+					switch c.M {
+					case "AllowElements", "SkipElementsContent", "AllowElementsContent":
+						list = &c.Names
+					case "AllowAttrs":
+						list = &c.Attrs
+					case "AllowStyles":
+						list = &c.Props
+					case "AllowURLSchemes":
+						list = &c.Schemes
+					}
+					if list == nil || len(*list) < 2 {
+						ext = append(ext, c)
+						continue
+					}
+					all := append([]string{}, (*list)...)
+					for i := len(all) - 1; i >= 0; i-- {
+						one := c
+						switch c.M {
+						case "AllowElements", "SkipElementsContent", "AllowElementsContent":
+							one.Names = []string{all[i]}
+						case "AllowAttrs":
+							one.Attrs = []string{all[i]}
+						case "AllowStyles":
+							one.Props = []string{all[i]}
+						case "AllowURLSchemes":
+							one.Schemes = []string{all[i]}
+						}
+						ext = append(ext, one)
+					}
+				}
+				variant = ext
 			}
 			h := []histStep{}
 			if v == 3 {
